@@ -247,6 +247,12 @@ def run(chk):
 
         def dc_cases():
             for iname in ins: yield (iname, stix2.parse(copy.deepcopy(ins[iname]), allow_custom=True))
+            # objects whose timestamp precision was decided from the value they were given
+            for txt in ('2020-01-01T00:00:00.000Z', '2020-01-01T00:00:00Z', '2020-01-01T00:00:00.120Z', '2020-01-01T00:00:00.000001Z'):
+                yield (f'2.0 statement marking created {txt}', stix2.v20.MarkingDefinition(definition_type='statement', definition=stix2.v20.StatementMarking('s'), created=txt))
+                yield (f'2.1 statement marking created {txt}', stix2.v21.MarkingDefinition(definition_type='statement', definition=stix2.v21.StatementMarking('s'), created=txt))
+                yield (f'2.1 indicator valid_from {txt}', stix2.v21.Indicator(pattern="[file:name = 'a']", pattern_type='stix', valid_from=txt))
+            yield ('2.0 TLP marking', stix2.v20.TLP_GREEN); yield ('2.1 TLP marking', stix2.v21.TLP_GREEN)
             for ver in ('2.0', '2.1'):
                 for label, cat, cls, kw in G.variants(ver, alts=(0,), with_all=True):
                     if label.endswith(':all-optional') and cat in ('objects', 'observables'):
@@ -256,7 +262,11 @@ def run(chk):
         def dc_check(case):
             name, o = case
             c = copy.deepcopy(o)
-            if c != o or type(c) is not type(o) or c.serialize() != o.serialize(): return ('deepcopy#equal to the original', f'{name}: deepcopy differs from its original', {})
+            if c != o or type(c) is not type(o) or c.serialize() != o.serialize(): return ('deepcopy#equal to the original', f'{name}: deepcopy differs from its original: {c.serialize()[:200]} vs {o.serialize()[:200]}', {})
+            import pickle
+            try: pk = pickle.loads(pickle.dumps(o))
+            except Exception: pk = None           # (not every object pickles; copying by pickle is not promised)
+            if pk is not None and (pk != o or pk.serialize() != o.serialize()): return ('deepcopy#pickle round trip equal to the original', f'{name}: the unpickled copy is written {pk.serialize()[:200]}, the original {o.serialize()[:200]}', {})
             shared = [v for i, v in mutable_ids(c).items() if i in mutable_ids(o)]
             if shared: return ('deepcopy#shares no mutable state', f'{name}: deepcopy shares {len(shared)} mutable object(s) with the original, e.g. {type(shared[0]).__name__} {str(shared[0])[:80]}', {})
         chk.bounded('deepcopy equal and disjoint', list(dc_cases()), dc_check, classify=lambda c: c[0], bound='the 4 nested shapes and the all-optional form of every type of both versions; id() walk over dictionaries, lists and embedded objects')
